@@ -130,8 +130,9 @@ Definition read_response_bounded (c : cfg) (buf : list N) : rr :=
   | _ => RRErr                                         (* binary.Read: timeout / EOF *)
   end.
 
-(* json.Unmarshal(resp, &lp.Info): accepted iff it looks like an object; the peer's
-   HTTP address is known iff the object is not empty *)
+(* json.Unmarshal(resp, &lp.Info): accepted iff it looks like an object; it brings the
+   peer's HTTP address iff the object is not empty (fields that are absent keep their
+   previous values: the lookupPeer object survives reconnects) *)
 Definition json_parse (body : list N) : option bool :=
   match body with
   | 123%N :: _ => Some (Nat.ltb 2 (length body))
@@ -201,7 +202,7 @@ Definition callback (c : cfg) (regcmds : list cmd) (k : link) : link * xres :=
       if bytes_eqb body einvalid_body then (close_peer k1, XErr)
       else match json_parse body with
            | None => (close_peer k1, XErr)
-           | Some info => send_all c regcmds (k1 <| k_info := info |>)
+           | Some info => send_all c regcmds (k1 <| k_info ::= (fun known => known || info) |>)
            end
   | other => other
   end.
